@@ -226,6 +226,23 @@ class Agent:
 # ---------------------------------------------------------------------------
 
 
+class RawNode(ber.N):
+    """pre-encoded bytes inside a node tree"""
+
+    def __init__(self, raw):
+        self.raw = bytes(raw)
+        self.tag = self.raw[0] if self.raw else 0
+        self.content = None
+        self.children = None
+        self.form = 0
+
+    def encode(self):
+        return self.raw
+
+    def walk(self):
+        yield self
+
+
 class V3Agent(Agent):
     """Authoritative SNMPv3 engine.  ``clock()`` returns the current virtual
     time in seconds; snmpEngineTime is derived from it."""
@@ -244,6 +261,7 @@ class V3Agent(Agent):
         self.stats = {k: 0 for k in usm.USM_STATS}
         self.msg_hook = None  # (agent, req_msg, dict(msg_id=..)) -> dict
         self.max_size = 65507
+        self.payload_hook = None  # (agent, scoped PDU bytes) -> bytes
         self.time_skew = 0  # added to the engine time put into Response messages (not Reports)
 
     @property
@@ -278,9 +296,14 @@ class V3Agent(Agent):
         level = fields["flags"] & 3
         salt = b""
         payload = scoped
+        clear = None
+        if self.payload_hook is not None:
+            # rewrite the plaintext scoped PDU before it is encrypted / signed
+            clear = self.payload_hook(self, scoped.encode())
+            payload = RawNode(clear)
         if level & 2:
             plug = usm.priv_plugin(user.priv[0])
-            ct, salt = plug.encrypt_data(user.priv_key(self.engine_id), self.engine_id, fields["boots"], fields["time"], scoped.encode())
+            ct, salt = plug.encrypt_data(user.priv_key(self.engine_id), self.engine_id, fields["boots"], fields["time"], clear if clear is not None else scoped.encode())
             payload = ber.n_str(bytes(ct))
         auth_ph = b"\x00" * 12 if level & 1 else b""
         sp = snmp.usm_params_node(fields["engine_id"], fields["boots"], fields["time"], fields["user"], auth_ph, bytes(salt))
